@@ -176,11 +176,19 @@ func (f *FS) Add(n *Node) *Node {
 		case KLink:
 			os.Symlink(n.Target, p)
 		case KFifo:
-			syscall.Mkfifo(p, n.Perm)
-		case KSock, KChr, KBlk:
-			// best effort natively (needs privileges): fall back to a fifo
-			syscall.Mkfifo(p, n.Perm)
+			syscall.Mknod(p, syscall.S_IFIFO|0o600, 0)
+		case KSock:
+			syscall.Mknod(p, syscall.S_IFSOCK|0o600, 0)
+		case KChr:
+			syscall.Mknod(p, syscall.S_IFCHR|0o600, int(n.Rdev))
+		case KBlk:
+			syscall.Mknod(p, syscall.S_IFBLK|0o600, int(n.Rdev))
 		}
+		if n.Kind != KLink {
+			os.Chmod(p, fs.FileMode(n.Perm))
+			os.Chtimes(p, time.Unix(n.Sec, n.Nsec), time.Unix(n.Sec, n.Nsec))
+		}
+		os.Lchown(p, int(n.Uid), int(n.Gid))
 	}
 	return n
 }
@@ -1146,3 +1154,16 @@ func Bind(fd int, sa unix.Sockaddr) error {
 }
 
 func UnixClose(fd int) error { return nil }
+
+// AsFS returns an fs.FS view of the model directory dir for use as a sender source
+// (symbolic: the model; native: the real directory through os.Root).
+func (f *FS) AsFS(dir string) fs.FS {
+	if f.real != "" {
+		r, err := os.OpenRoot(f.real + "/" + dir)
+		if err != nil {
+			panic(err)
+		}
+		return r.FS()
+	}
+	return &rootFS{ri: &rootInfo{fs: f, dir: dir, abs: "/model/" + dir}}
+}
